@@ -266,6 +266,19 @@ Proof.
   repeat first [apply Inv_prune_node7 | apply Inv_prune_comp7 | apply Inv_prune_ns7 | apply Inv_prune_if8 | inv_step].
 Qed.
 
+Lemma Inv_prune_node9 nn : Inv (prune_node9 nn).
+Proof.
+  unfold prune_node9. apply Inv_bind; [apply Inv_exists_as | intros b]. destruct b; [|apply Inv_ret].
+  apply Inv_bind; [apply Inv_get | intros t].
+  destruct (N.eqb t T_Facility); [apply Inv_api_remove_facility | apply Inv_api_remove_node].
+Qed.
+
+Lemma Inv_api_prune9 : Inv api_prune9.
+Proof.
+  unfold api_prune9.
+  repeat first [apply Inv_prune_node9 | apply Inv_prune_comp7 | apply Inv_prune_ns7 | apply Inv_prune_if8 | inv_step].
+Qed.
+
 Lemma Inv_api_prune7 : Inv api_prune7.
 Proof.
   unfold api_prune7.
@@ -278,7 +291,7 @@ Proof.
     repeat first [apply Inv_api_remove_node | apply Inv_api_remove_facility | apply Inv_api_remove_switch
                  | apply Inv_api_remove_link | apply Inv_api_remove_ns_topo | apply Inv_api_remove_component
                  | apply Inv_api_node_remove_ns | apply Inv_api_disconnect | apply Inv_api_unpeer6 | apply Inv_api_unpeer
-                 | apply Inv_api_remove_interface | apply Inv_api_remove_child | apply Inv_api_prune8 | apply Inv_api_prune7 | apply Inv_api_prune | inv_step].
+                 | apply Inv_api_remove_interface | apply Inv_api_remove_child | apply Inv_api_prune9 | apply Inv_api_prune8 | apply Inv_api_prune7 | apply Inv_api_prune | inv_step].
 Qed.
 
 (* ---- the frame theorem ---- *)
